@@ -15,8 +15,8 @@
      RunFailed  run chrom exc where      run_compare raised
      Crashed    (runner) the worker died / timed out
 
-   mem carries the earlier lines of the same tid (run 0 results for the invariance clauses,
-   pairwise rows for the multiway consistency clause). *)
+   mem carries the earlier lines of the same tid and chromosome (run 0 results for the invariance
+   clauses, pairwise rows for the multiway consistency clause). *)
 EXTENDS Compare, Json, IOUtils
 Trace == ndJsonDeserialize(IOEnv.TRACE_FILE)
 VARIABLES l, mem
@@ -30,70 +30,69 @@ Firsts(s) == [k \in DOMAIN s |-> s[k][1]]
 Seconds(s) == [k \in DOMAIN s |-> s[k][2]]
 CoreEq(r, q) == r.sw = q.sw /\ r.ham = q.ham /\ r.dg = q.dg /\ r.sfs + r.sff = q.sfs + q.sff
 
-(* lines of the current tid seen so far (mem still holds the previous tid's lines when seq = 1) *)
-Earlier(e, ev, run) == IF e.seq = 1 THEN {}
+(* mem = the Pair/Multi lines of the current tid and chromosome seen so far (the driver emits both runs
+   of one chromosome consecutively); Fresh: e starts a new tid or chromosome *)
+Fresh(e) == e.seq = 1 \/ mem = << >> \/ mem[1].chrom # e.chrom
+Earlier(e, ev, run) == IF Fresh(e) THEN {}
                        ELSE { k \in DOMAIN mem : mem[k].ev = ev /\ mem[k].run = run /\ mem[k].chrom = e.chrom }
 Twin(e) == { k \in Earlier(e, "Pair", 0) : mem[k].i = e.i /\ mem[k].j = e.j }
 
-JudgePair(e) ==
-    LET F == e.F
-        P == e.p
-        t == Totals(F, P)
-        L == Longest(F)
-        reps == IF L = {} THEN { EmptyReport } ELSE { ReportOf(F, blk, P) : blk \in L }
-    IN
+(* run 1 result e against its run 0 twin o (same chromosome, same pair of files) *)
+JudgeTwin_(e, o, P, nLongest) ==
+    /\ Check(e, "HarnessOrbit", SameUpToLabels(o.F[1], e.F[1], P) /\ SameUpToLabels(o.F[2], e.F[2], P))
+    /\ Check(e, "PermutationInvariance",
+             /\ e.row.nblk = o.row.nblk /\ e.row.cov = o.row.cov /\ e.row.pairs = o.row.pairs
+             /\ CoreEq(e.row, o.row)
+             /\ (P = 2 => e.row = o.row)
+             /\ (nLongest <= 1 => (e.lrow.pairs = o.lrow.pairs /\ CoreEq(e.lrow, o.lrow) /\ (P = 2 => e.lrow = o.lrow)))
+             /\ (e.aux => Rng(e.bed) = Rng(o.bed)))
+    /\ Check(e, "PolyDecompositionInvariance",
+             P > 2 => (/\ e.row.sfs = o.row.sfs /\ e.row.sff = o.row.sff
+                       /\ (nLongest <= 1 => (e.lrow.sfs = o.lrow.sfs /\ e.lrow.sff = o.lrow.sff))))
+
+AgreeOK_(e, X, Y) == Seconds(e.agree) \in { EqVec(X, Y), NeqVec(X, Y) }
+JudgeAux_(e, F, L, B) ==
+    /\ Check(e, "BedCountIsSwitches", 2 * Len(e.bed) = e.row.sw)
+    /\ Check(e, "BedMarksSwitchPositions",
+             Rng(e.bed) = SwitchPositionsB_(F, B) /\ Cardinality(Rng(e.bed)) = Len(e.bed))
+    /\ Check(e, "LongestBlockAgreementMatchesHamming", 2 * Zeros(Seconds(e.agree)) = e.lrow.ham)
+    /\ Check(e, "LongestBlockAgreementIsPositionwise",
+             IF L = {} THEN e.agree = << >>
+             ELSE \E blk \in L : /\ Firsts(e.agree) = SortedSeqOf(blk)
+                                 /\ AgreeOK_(e, Haps(F, 1, blk, 2), Haps(F, 2, blk, 2)))
+    /\ Check(e, "ZeroForIdentical", F[1] = F[2] => (e.bed = << >> /\ Zeros(Seconds(e.agree)) = 0))
+
+JudgePairT_(e, F, P, B, rep, t, L, twin) ==
     /\ Check(e, "IntersectionBlocks", RowBlocksOK(e.row, t))
     /\ Check(e, "SwitchErrorsAreDefinition", RowSwitchesOK(e.row, t))
     /\ Check(e, "SwitchFlipIsDefinition", RowSFOK(e.row, t))
     /\ Check(e, "HammingIsDefinition", RowHammingOK(e.row, t))
     /\ Check(e, "GenotypeDiffsAreDefinition", RowDGOK(e.row, t))
-    /\ Check(e, "LargestBlockIsDefinition", \E rep \in reps : LargestIs(e.lrow, rep))
+    /\ Check(e, "LargestBlockIsDefinition",
+             IF L = {} THEN LargestIs(e.lrow, EmptyReport) ELSE \E blk \in L : LargestIs(e.lrow, rep[blk]))
     /\ Check(e, "SwitchFlipIdentity",
              P = 2 => (e.row.sw = e.row.sfs + 2 * e.row.sff /\ e.lrow.sw = e.lrow.sfs + 2 * e.lrow.sff))
     /\ Check(e, "ZeroForIdentical", F[1] = F[2] => (ErrZero(e.row) /\ ErrZero(e.lrow)))
-    /\ IF e.aux THEN
-         /\ Check(e, "BedCountIsSwitches", 2 * Len(e.bed) = e.row.sw)
-         /\ Check(e, "BedMarksSwitchPositions",
-                  Rng(e.bed) = SwitchPositions(F) /\ Cardinality(Rng(e.bed)) = Len(e.bed))
-         /\ Check(e, "LongestBlockAgreementMatchesHamming", 2 * Zeros(Seconds(e.agree)) = e.lrow.ham)
-         /\ Check(e, "LongestBlockAgreementIsPositionwise",
-                  IF L = {} THEN e.agree = << >>
-                  ELSE \E blk \in L : /\ Firsts(e.agree) = SortedSeqOf(blk)
-                                      /\ LET X == Haps(F, 1, blk, 2) Y == Haps(F, 2, blk, 2) IN
-                                         Seconds(e.agree) \in { EqVec(X, Y), NeqVec(X, Y) })
-         /\ Check(e, "ZeroForIdentical", F[1] = F[2] => (e.bed = << >> /\ Zeros(Seconds(e.agree)) = 0))
-       ELSE TRUE
-    /\ IF e.run = 1 /\ Twin(e) # {} THEN
-         LET o == mem[CHOOSE k \in Twin(e) : TRUE] IN
-         /\ Check(e, "HarnessOrbit", SameUpToLabels(o.F[1], F[1], P) /\ SameUpToLabels(o.F[2], F[2], P))
-         /\ Check(e, "PermutationInvariance",
-                  /\ e.row.nblk = o.row.nblk /\ e.row.cov = o.row.cov /\ e.row.pairs = o.row.pairs
-                  /\ CoreEq(e.row, o.row)
-                  /\ (P = 2 => e.row = o.row)
-                  /\ (Cardinality(L) <= 1 => (e.lrow.pairs = o.lrow.pairs /\ CoreEq(e.lrow, o.lrow) /\ (P = 2 => e.lrow = o.lrow)))
-                  /\ (e.aux => (Rng(e.bed) = Rng(o.bed) /\ Zeros(Seconds(e.agree)) = Zeros(Seconds(o.agree)))))
-         /\ Check(e, "PolyDecompositionInvariance",
-                  P > 2 => (/\ e.row.sfs = o.row.sfs /\ e.row.sff = o.row.sff
-                            /\ (Cardinality(L) <= 1 => (e.lrow.sfs = o.lrow.sfs /\ e.lrow.sff = o.lrow.sff))))
-       ELSE TRUE
+    /\ (IF e.aux THEN JudgeAux_(e, F, L, B) ELSE TRUE)
+    /\ (IF e.run = 1 /\ twin # {} THEN JudgeTwin_(e, mem[CHOOSE k \in twin : TRUE], P, Cardinality(L)) ELSE TRUE)
+JudgePairR_(e, F, P, B, rep) == JudgePairT_(e, F, P, B, rep, Totals_(B, rep), LongestOf(B), Twin(e))
+JudgePairB_(e, F, P, B) == JudgePairR_(e, F, P, B, Reports(F, B, P))
+JudgePair(e) == JudgePairB_(e, e.F, e.p, Blocks(e.F))
 
 HistSet(h) == { << Rng(h[k][1]), h[k][2] >> : k \in DOMAIN h }
 SeparatingRep(hs, i, j) == SumOver(hs, [x \in hs |-> IF (i \in x[1]) # (j \in x[1]) THEN x[2] ELSE 0])
 
-JudgeMulti(e) ==
-    LET F == e.F
-        h == MultiHist(F)
-        hs == HistSet(e.hist)
-    IN
+JudgeMultiTwin_(e, o, hs) ==
+    /\ Check(e, "HarnessOrbit", \A f \in DOMAIN e.F : SameUpToLabels(o.F[f], e.F[f], 2))
+    /\ Check(e, "PermutationInvariance", hs = HistSet(o.hist))
+JudgeMultiH_(e, F, h, hs, MP, twin) ==
     /\ Check(e, "MultiwayIsDefinition", hs = { <<sp, h[sp]>> : sp \in DOMAIN h } /\ Cardinality(hs) = Len(e.hist))
-    /\ Check(e, "MultiwaySumsToPairs", SumOver(hs, [x \in hs |-> x[2]]) = MultiCompared(F))
+    /\ Check(e, "MultiwaySumsToPairs", SumOver(hs, [x \in hs |-> x[2]]) = Cardinality(MP))
     /\ Check(e, "MultiwayConsistentWithPairwise",
              \A k \in Earlier(e, "Pair", e.run) : 2 * SeparatingRep(hs, mem[k].i, mem[k].j) <= mem[k].row.sw)
-    /\ IF e.run = 1 /\ Earlier(e, "Multi", 0) # {} THEN
-         LET o == mem[CHOOSE k \in Earlier(e, "Multi", 0) : TRUE] IN
-         /\ Check(e, "HarnessOrbit", \A f \in DOMAIN F : SameUpToLabels(o.F[f], F[f], 2))
-         /\ Check(e, "PermutationInvariance", hs = HistSet(o.hist))
-       ELSE TRUE
+    /\ (IF e.run = 1 /\ twin # {} THEN JudgeMultiTwin_(e, mem[CHOOSE k \in twin : TRUE], hs) ELSE TRUE)
+JudgeMultiP_(e, F, MP) == JudgeMultiH_(e, F, MultiHist_(MP), HistSet(e.hist), MP, Earlier(e, "Multi", 0))
+JudgeMulti(e) == JudgeMultiP_(e, e.F, MultiPairs(e.F))
 
 Judge(e) ==
     CASE e.ev = "Pair"      -> JudgePair(e)
@@ -107,7 +106,7 @@ Next == /\ l <= Len(Trace)
         /\ LET e == Trace[l] IN
            /\ Judge(e)
            /\ mem' = IF e.ev \in {"Pair", "Multi"}
-                     THEN (IF e.seq = 1 THEN <<e>> ELSE Append(mem, e))
+                     THEN (IF Fresh(e) THEN <<e>> ELSE Append(mem, e))
                      ELSE (IF e.seq = 1 THEN << >> ELSE mem)
         /\ l' = l + 1
 Spec == Init /\ [][Next]_vars
